@@ -85,7 +85,10 @@ type evs struct {
 	out        []string
 	recv, typ  string
 	lastTabPos token.Pos
+	member     bool // emit GMemberCall for calls of local function values (a member's CreateConnFn)
 }
+
+var builtinCalls = map[string]bool{"len": true, "int": true, "append": true, "make": true, "close": true, "delete": true, "cap": true, "uint64": true}
 
 func (e *evs) add(s string) { e.out = append(e.out, s) }
 
@@ -211,6 +214,8 @@ func (e *evs) exprEvents(n ast.Node, mentionsTable bool) {
 		case *ast.Ident:
 			if f.Name == "close" && len(c.Args) == 1 {
 				e.add("GOp " + tx.CoqString("close "+strings.TrimPrefix(show(c.Args[0]), e.recv+".")))
+			} else if e.member && !builtinCalls[f.Name] {
+				e.add("GMemberCall")
 			}
 		case *ast.SelectorExpr:
 			root := show(f.X)
@@ -432,6 +437,85 @@ func joinChecks(fd *ast.FuncDecl, recv string) []string {
 	return out
 }
 
+// ---- server/proxy/http.go Run: what happens in each `if pxy.cfg.LoadBalancer.Group != ""` block ----
+func runGroupBlocks(fd *ast.FuncDecl) [][]string {
+	var out [][]string
+	ast.Inspect(fd.Body, func(n ast.Node) bool {
+		is, ok := n.(*ast.IfStmt)
+		if !ok || !strings.Contains(show(is.Cond), "LoadBalancer.Group != \"\"") {
+			return true
+		}
+		var toks []string
+		for _, st := range is.Body.List {
+			txt := show(st)
+			switch {
+			case strings.HasPrefix(txt, "err = ") && strings.Contains(txt, "HTTPGroupCtl.Register("):
+				toks = append(toks, "Register")
+			case txt == "if err != nil { return }":
+				toks = append(toks, "IfErrReturn")
+			case strings.Contains(txt, "closeFuncs = append(") && strings.Contains(txt, "HTTPGroupCtl.UnRegister("):
+				toks = append(toks, "AppendUnRegister")
+			default:
+				toks = append(toks, "Unknown: "+txt)
+			}
+		}
+		out = append(out, toks)
+		return false
+	})
+	return out
+}
+
+// ---- pkg/util/vhost/http.go: how requests reach a group ----
+func vhostHTTPFacts(f *ast.File) []string {
+	var out []string
+	connect, endpoint, poolKey := "ConnectHandlerNotFound", "ChooseEndpointNotFound", "PoolKeyWithoutEndpoint"
+	ast.Inspect(f, func(n ast.Node) bool {
+		switch x := n.(type) {
+		case *ast.FuncDecl:
+			if x.Name.Name == "connectHandler" && x.Body != nil {
+				connect = "ConnectDialUnknown"
+				ast.Inspect(x.Body, func(m ast.Node) bool {
+					if c, ok := m.(*ast.CallExpr); ok {
+						switch {
+						case selName(c.Fun) == "CreateConnection" && len(c.Args) == 2 && show(c.Args[1]) == "false":
+							connect = "ConnectDialsByRoute"
+						case selName(c.Fun) == "DialContext":
+							connect = "ConnectDialsThroughTransport"
+							return false
+						}
+					}
+					return true
+				})
+			}
+		case *ast.AssignStmt:
+			if len(x.Rhs) == 1 {
+				if c, ok := x.Rhs[0].(*ast.CallExpr); ok && selName(c.Fun) == "ChooseEndpointFn" && len(x.Lhs) >= 1 && isIdent(x.Lhs[0], "endpoint") {
+					if x.Tok == token.ASSIGN {
+						endpoint = "EndpointAssignedToOuter"
+					} else {
+						endpoint = "EndpointShadowed"
+					}
+				}
+				if len(x.Lhs) == 1 && show(x.Lhs[0]) == "req.URL.Host" {
+					has := false
+					ast.Inspect(x.Rhs[0], func(m ast.Node) bool {
+						if id, ok := m.(*ast.Ident); ok && id.Name == "endpoint" {
+							has = true
+						}
+						return true
+					})
+					if has {
+						poolKey = "PoolKeyHasEndpoint"
+					}
+				}
+			}
+		}
+		return true
+	})
+	out = append(out, connect, endpoint, poolKey)
+	return out
+}
+
 func gen() ([]byte, error) {
 	lockTargets := map[string]bool{
 		"TCPGroupCtl.Listen": true, "TCPGroup.CloseListener": true,
@@ -465,6 +549,49 @@ func gen() ([]byte, error) {
 				shapes[key] = acceptShape(fd)
 			}
 		}
+	}
+	// the member's CreateConnFn is called outside the group lock
+	memberTargets := map[string]bool{"HTTPGroup.createConn": true, "HTTPGroup.createConnByEndpoint": true, "HTTPGroup.chooseEndpoint": true}
+	memberFacts := map[string][]string{}
+	{
+		f, err := parser.ParseFile(fset, filepath.Join(tx.Repo, "server", "group", "http.go"), nil, 0)
+		if err != nil {
+			return nil, err
+		}
+		for _, d := range f.Decls {
+			fd, ok := d.(*ast.FuncDecl)
+			if !ok || fd.Body == nil {
+				continue
+			}
+			recv, typ := recvOf(fd)
+			if key := typ + "." + fd.Name.Name; memberTargets[key] {
+				e := &evs{recv: recv, typ: typ, member: true}
+				e.walkStmt(fd.Body)
+				memberFacts[key] = e.out
+			}
+		}
+	}
+	var runBlocks [][]string
+	{
+		f, err := parser.ParseFile(fset, filepath.Join(tx.Repo, "server", "proxy", "http.go"), nil, 0)
+		if err != nil {
+			return nil, err
+		}
+		for _, d := range f.Decls {
+			if fd, ok := d.(*ast.FuncDecl); ok && fd.Body != nil && fd.Name.Name == "Run" {
+				if _, typ := recvOf(fd); typ == "HTTPProxy" {
+					runBlocks = runGroupBlocks(fd)
+				}
+			}
+		}
+	}
+	var vhostFacts []string
+	{
+		f, err := parser.ParseFile(fset, filepath.Join(tx.Repo, "pkg", "util", "vhost", "http.go"), nil, 0)
+		if err != nil {
+			return nil, err
+		}
+		vhostFacts = vhostHTTPFacts(f)
 	}
 	// Routers.Del
 	var delShape []string
@@ -570,6 +697,37 @@ func gen() ([]byte, error) {
 		}
 		fmt.Fprintf(&b, "  (%s, [%s])", tx.CoqString(k), strings.Join(q, "; "))
 	}
-	b.WriteString("\n].\n")
+	b.WriteString("\n].\n\nDefinition http_member_call_facts : list (string * list glev) := [\n")
+	first = true
+	for _, k := range []string{"HTTPGroup.createConn", "HTTPGroup.chooseEndpoint", "HTTPGroup.createConnByEndpoint"} {
+		ev, ok := memberFacts[k]
+		if !ok {
+			continue
+		}
+		if !first {
+			b.WriteString(";\n")
+		}
+		first = false
+		fmt.Fprintf(&b, "  (%s, [%s])", tx.CoqString(k), strings.Join(ev, "; "))
+	}
+	b.WriteString("\n].\n\nDefinition http_proxy_run_group_blocks : list (list string) := [")
+	for i, blk := range runBlocks {
+		if i > 0 {
+			b.WriteString("; ")
+		}
+		q := make([]string, len(blk))
+		for j, t := range blk {
+			q[j] = tx.CoqString(t)
+		}
+		b.WriteString("[" + strings.Join(q, "; ") + "]")
+	}
+	b.WriteString("].\n\nDefinition vhost_http_group_facts : list string := [")
+	for i, t := range vhostFacts {
+		if i > 0 {
+			b.WriteString("; ")
+		}
+		b.WriteString(tx.CoqString(t))
+	}
+	b.WriteString("].\n")
 	return b.Bytes(), nil
 }
